@@ -42,7 +42,11 @@ def has_protocol(interp, v, attrs):
     if v is None or isinstance(v, (int, str, bool, Sentinel, UserFn, SInt, SBool)):
         return False
     if isinstance(v, Opaque):
-        raise Unsupported("protocol test on a user value")
+        # the job's contract says which protocols user values implement (enumerated shape)
+        vp = interp.opts.get("val_protocols", {})
+        if all(a in vp for a in attrs):
+            return all(vp[a] for a in attrs)
+        raise Unsupported(f"protocol test {attrs} on a user value")
     return False
 
 
@@ -175,6 +179,8 @@ class Builder:
         if self.seq is None:
             if self.kind == "list":
                 return SList(items=list(self.items))
+            if self.kind == "dict" and all(isinstance(k, (str, int)) for k, _ in self.items):
+                return {k: v for k, v in self.items}
             self.widen()
         if self.kind == "list":
             if isinstance(self.seq, tuple):
@@ -548,6 +554,8 @@ def call_builtin(interp, name, args, kwargs, site):
             return Builtin("str")
         raise Unsupported(f"type({v!r})")
     # ---- constructors ----------------------------------------------------------------------
+    if name == "_support.await_" or name == "await_":
+        return (yield from interp.await_(args[0], site))
     if name == "object":
         return Sentinel(f"object@{site}")
     if name == "Sentinel" or name == "_core.Sentinel":
